@@ -6,8 +6,10 @@ def _c31_nontrivial(req, out):
     t = req.split(" ")
     if len(t) < 3:
         return False
-    if t[1] == "conv":
-        return t[2] != "-" if len(t) == 3 else t[3] != "-"
+    if t[1] in ("conv", "vec", "json", "bp", "bv"):
+        return len(t) > 3 and t[3] not in ("-", "")
+    if t[1] == "semi":
+        return len(t) > 5 and (t[4] != "-" or t[5] != "-")
     return t[2] not in ("-", "")
 
 
